@@ -3,7 +3,7 @@ package main
 import (
 	"encoding/json"
 	"fmt"
-	"sync"
+	"strings"
 	"time"
 
 	"qeepverif/internal/bind"
@@ -512,6 +512,33 @@ func judge(c *c09Case) (verdict string) {
 	return ""
 }
 
+// c09Worker is the body of "qv worker c09": one call per job, judged against the specified outcome.
+func c09Worker(args []string) int {
+	k := 0
+	return run.WorkerMain(func(line []byte, r *run.Recorder) {
+		var cs c09Case
+		if err := json.Unmarshal(line, &cs); err != nil {
+			r.Broken(fmt.Sprintf("case does not parse: %v", err))
+			return
+		}
+		v := judge(&cs)
+		if len(v) > 8 && v[:8] == "HARNESS:" {
+			r.Broken(fmt.Sprintf("%s in %s", v, line))
+			return
+		}
+		if v != "" {
+			if v2 := judge(&cs); v2 != "" { // reproducible?
+				r.Violate(fmt.Sprintf("%s: %s", line[:min(len(line), 200)], v), map[string]any{"c09": cs, "detail": v})
+			}
+		}
+		r.Count(strings.TrimSpace(string(line)), true)
+		k++
+		if k%499 == 1 {
+			r.Sample(json.RawMessage(append([]byte(nil), line...)))
+		}
+	})
+}
+
 func init() {
 	register("C09", "exploration", func(c *run.Ctx) error {
 		c.Rule = "TLC enumerates calls of every public entry point (constructors incl. TensorOf with rectangular and ragged nested data of depth 0..4, At, every Tensor method with integer / shape / range arguments, all binary methods with mismatched and nil operands, Concat, BackPropagate, NewFC and Forward of every layer / activation, the three losses, Accuracy, SGD.Update in five states, every initializer's constructor and Init) with arguments from [-2,6], ranks 0..5, nil values (full product up to length 2, one position varied above) and emits the outcome defined by spec/Total.tla: rejected, or accepted with a shape; the harness performs each call under recover with a 20 s watchdog (plus 400 (20000) seeded random HISTORIES of calls that ignore the provisos of C08 - re-back-propagating used graphs, resetting tensors inside live graphs - which only have to return without panicking) and requires: no panic, no hang, an error and no result exactly when rejected, otherwise a readable result of the specified shape; distinct = distinct calls; non-trivial = every call (each is a different argument tuple)"
@@ -524,58 +551,29 @@ func init() {
 		if err != nil {
 			return err
 		}
-		c.Logf("executing the calls on the real library")
-		var mu sync.Mutex
+		c.Logf("executing the calls on the real library (worker processes, one call at a time each)")
 		jobs := make(chan []byte, 64)
-		var wg sync.WaitGroup
-		var broken error
 		n := 0
-		for w := 0; w < 16; w++ {
-			wg.Add(1)
-			go func() {
-				defer wg.Done()
-				for line := range jobs {
-					var cs c09Case
-					if err := json.Unmarshal(line, &cs); err != nil {
-						mu.Lock()
-						broken = run.Brokenf("case does not parse: %v", err)
-						mu.Unlock()
-						continue
-					}
-					v := judge(&cs)
-					if len(v) > 8 && v[:8] == "HARNESS:" {
-						mu.Lock()
-						broken = run.Brokenf("%s in %s", v, line)
-						mu.Unlock()
-						continue
-					}
-					if v != "" {
-						if v2 := judge(&cs); v2 != "" { // reproducible?
-							c.Violate(fmt.Sprintf("%s: %s", line[:min(len(line), 200)], v), map[string]any{"c09": cs, "detail": v})
-						}
-					}
-					key := string(line)
-					c.Count(key, true)
-					mu.Lock()
-					n++
-					if n%1999 == 1 {
-						c.Sample(json.RawMessage(append([]byte(nil), line...)))
-					}
-					mu.Unlock()
-				}
-			}()
+		var rerr error
+		go func() {
+			defer close(jobs)
+			rerr = run.ReadLines(files, func(line []byte) error {
+				n++
+				jobs <- append([]byte(nil), line...)
+				return nil
+			})
+		}()
+		describe := func(job []byte) string { return string(job[:min(len(job), 200)]) }
+		witness := func(job []byte) any {
+			var cs c09Case
+			json.Unmarshal(job, &cs)
+			return map[string]any{"c09": cs, "detail": "the process died or hung while executing this call"}
 		}
-		err = run.ReadLines(files, func(line []byte) error {
-			jobs <- append([]byte(nil), line...)
-			return nil
-		})
-		close(jobs)
-		wg.Wait()
-		if err != nil {
+		if err := c.Farm([]string{"c09"}, jobs, 2*time.Minute, describe, witness); err != nil {
 			return err
 		}
-		if broken != nil {
-			return broken
+		if rerr != nil {
+			return rerr
 		}
 		if n == 0 {
 			return run.Brokenf("no calls generated")
